@@ -85,6 +85,11 @@ def build_stack_case(rng, sid, tier):
     tag_idx = {name: c.add('tags', wid) for name, (wid, fn) in worlds.items()}
     pts = wg.sample_points(rng, w, 40, p_inside=0.85)
     props = props_for(NCOMP)
+    # the order of the request is part of the workload: models get the value painted so far from the request's own result vector,
+    # so multi-valued blocks (grains, velocity) in front of temperature / compositions must not matter
+    if rng.random() < 0.7:
+        props = list(props)
+        rng.shuffle(props)
     plan = []
     for (sx, sy, d) in pts:
         plan.append(((sx, sy, d), {name: q3(c, wid, ctx, sx, sy, d, props) for name, (wid, fn) in worlds.items()}))
@@ -137,8 +142,14 @@ def check_stack(V, c, t):
             V.coverage['points_with_exceptions'] = V.coverage.get('points_with_exceptions', 0) + 1
             continue
         val = {name: vals(r) for name, r in res.items()}
-        blocks = {name: core.split_blocks(v, props) for name, v in val.items()}
-        ti = props.index((4, 0, 0))
+        # blocks in the canonical order (temperature, compositions, grains, tag) whatever the order of the request was
+        canonical = props_for(NCOMP)
+        order_of = [props.index(p) for p in canonical]
+        blocks = {}
+        for name, v in val.items():
+            sp = core.split_blocks(v, props)
+            blocks[name] = [sp[k] for k in order_of]
+        ti = canonical.index((4, 0, 0))
         covers = [blocks['F%d' % i][ti][0] >= 0 for i in range(n)]
         ncover = sum(covers)
         V.count()
@@ -223,7 +234,7 @@ def main(tier, seed, replay):
     V = core.Verdict(PID, tier, seed)
     V.coverage['rule'] = ('stacks of 2-6 overlapping features of every type; per stack the world W, the empty world, every single-feature world, every single-model world (replace, and add for temperature), and '
                           'deletion/move variants, all queried at 40 points: tag = tag of the last covering feature, W minus / with moved non-covering features answers bit-identically, W = fold over covering features in '
-                          'file order of op(value so far, isolated model value); non-trivial = point covered by >= 2 features with >= 1 non-replace operation, or a deleted/moved non-covering feature positioned before a covering one')
+                          'file order of op(value so far, isolated model value); the property lists of 70 % of the stacks are in shuffled order (grains in front of temperature and compositions); non-trivial = point covered by >= 2 features with >= 1 non-replace operation, or a deleted/moved non-covering feature positioned before a covering one')
     nstacks = 100 if tier == 'quick' else 3000
     jobs = []
     for i in range(nstacks):
